@@ -573,7 +573,8 @@ _log_filter_store(uint32_t t, enum qb_log_filter_conf c,
 		  const char *text,
 		  uint8_t high_priority,
 		  uint8_t low_priority,
-		  struct qb_log_filter **new)
+		  struct qb_log_filter **new,
+		  struct qb_log_filter **removed)
 {
 	struct qb_log_filter *flt;
 	struct qb_list_head *iter;
@@ -649,7 +650,8 @@ _log_filter_store(uint32_t t, enum qb_log_filter_conf c,
 			    (strcmp(flt->text, text) == 0 ||
 			     strcmp("*", text) == 0)) {
 				qb_list_del(iter);
-				_log_free_filter(flt);
+				/* the caller still needs its compiled regex */
+				*removed = flt;
 				return 0;
 			}
 		}
@@ -734,6 +736,9 @@ qb_log_filter_ctl2(int32_t t, enum qb_log_filter_conf c,
 		   uint8_t high_priority, uint8_t low_priority)
 {
 	struct qb_log_filter *new_flt = NULL;
+	struct qb_log_filter *old_flt = NULL;
+	struct qb_log_filter *flt;
+	struct qb_list_head *list_head;
 	regex_t *regex = NULL;
 	struct callsite_section *sect;
 	int32_t rc;
@@ -758,7 +763,8 @@ qb_log_filter_ctl2(int32_t t, enum qb_log_filter_conf c,
 		return -EINVAL;
 	}
 	pthread_rwlock_rdlock(&_listlock);
-	rc = _log_filter_store(t, c, type, text, high_priority, low_priority, &new_flt);
+	rc = _log_filter_store(t, c, type, text, high_priority, low_priority,
+			       &new_flt, &old_flt);
 	if (rc < 0) {
 		pthread_rwlock_unlock(&_listlock);
 		return rc;
@@ -767,8 +773,31 @@ qb_log_filter_ctl2(int32_t t, enum qb_log_filter_conf c,
 	if (new_flt && new_flt->regex) {
 		regex = new_flt->regex;
 	}
+	if (old_flt && old_flt->regex) {
+		/* clear what the removed filter's own pattern matched */
+		regex = old_flt->regex;
+	}
 	qb_list_for_each_entry(sect, &callsite_sections, list) {
 		_log_filter_apply(sect, t, c, type, text, regex, high_priority, low_priority);
+	}
+	if (c == QB_LOG_FILTER_REMOVE || c == QB_LOG_TAG_CLEAR) {
+		/*
+		 * The callsites just cleared may still be selected by the
+		 * filters that remain stored, so apply those again.
+		 */
+		list_head = (c == QB_LOG_FILTER_REMOVE) ?
+			&conf[t].filter_head : &tags_head;
+		qb_list_for_each_entry(flt, list_head, list) {
+			qb_list_for_each_entry(sect, &callsite_sections, list) {
+				_log_filter_apply(sect, flt->new_value, flt->conf,
+						  flt->type, flt->text, flt->regex,
+						  flt->high_priority,
+						  flt->low_priority);
+			}
+		}
+	}
+	if (old_flt) {
+		_log_free_filter(old_flt);
 	}
 	pthread_rwlock_unlock(&_listlock);
 	return 0;
